@@ -7,7 +7,7 @@ from typing import Any, Dict, List, Optional, Tuple
 from . import codec, core
 from .absint import Budget, CondV, ExcV, Fn, Interp, ListV, Unknown, _Unmodelled
 from .codec import COMPACT, SER, describe_path, same_or_refuted
-from .compact_model import (BodyPath, OrderModel, Siblings, Structure, cond_is_position_zero, extract_structure,
+from .compact_model import (carried_variables, freeze, initial_carried, BodyPath, OrderModel, Siblings, Structure, cond_is_position_zero, extract_structure, guard_means_strictly_ascending,
                             interleaving_witnesses, run_body, sibling_model)
 from .lin import Lin, Sym, compare
 from .rules_C06 import Setup
@@ -81,31 +81,45 @@ def analyse(ctx, want_prefix: str):
                                  "init": core.src(st.init.value) if st.init else None, "key": st.key_fn}
 
     # ---- preamble --------------------------------------------------------------------------------------
-    chain = st.chain
-    iwhere = core.loc(COMPACT, st.init)
-    if "?" in chain:
-        ob("C08.0", f"{Q}: working list `{core.src(st.init.value)}` covers the same cells as the argument", core.UNDECIDED, iwhere,
-           "initialisation is not a chain of sorted/set/list over the parameter")
-        ob("C09.1", f"{Q}: working list `{core.src(st.init.value)}` is sorted and duplicate-free", core.UNDECIDED, iwhere,
-           "initialisation is not a chain of sorted/set/list over the parameter")
-    else:
-        ob("C08.0", f"{Q}: working list `{core.src(st.init.value)}` covers the same cells as the argument", core.DISCHARGED, iwhere,
+    order_keys: List[Tuple[Any, str, Any]] = []     # (key function or None, description, node) for each sorted initialisation path
+    paths = st.inits or [(st.init, st.chain, st.key_fn, st.sort_reverse, None)]
+    for node, chain, kf, rev, guard in paths:
+        iwhere = core.loc(COMPACT, node)
+        desc = f"`{core.src(node.value)}`" + (f" (when {guard})" if guard else "")
+        if "?" in chain:
+            ob("C08.0", f"{Q}: working list {desc} covers the same cells as the argument", core.UNDECIDED, iwhere,
+               "initialisation is not a chain of sorted/set/list over the parameter")
+            ob("C09.1", f"{Q}: working list {desc} is sorted and duplicate-free", core.UNDECIDED, iwhere,
+               "initialisation is not a chain of sorted/set/list over the parameter")
+            continue
+        ob("C08.0", f"{Q}: working list {desc} covers the same cells as the argument", core.DISCHARGED, iwhere,
            f"chain {chain or ['alias']} only reorders / removes duplicates")
         dedup = any(o in ("set", "frozenset") for o in chain)
         first_set = min([i for i, o in enumerate(chain) if o in ("set", "frozenset")], default=len(chain))
         is_sorted = "sorted" in chain and chain.index("sorted") < first_set
+        if not dedup and not is_sorted and guard_means_strictly_ascending(guard, st.param):
+            # the guard establishes: strictly ascending in plain numeric order (hence duplicate-free), no key function
+            ob("C09.1", f"{Q}: working list {desc} is duplicate-free and in ascending numeric order", core.DISCHARGED, iwhere,
+               "the guard requires every element to be smaller than its successor")
+            order_keys.append((None, f"when the input is already strictly ascending ({guard})", node))
+            continue
+        if guard is not None and not (dedup and is_sorted):
+            ob("C09.1", f"{Q}: working list {desc} is sorted and duplicate-free", core.UNDECIDED, iwhere,
+               "a guarded shortcut whose guard is not one of the modelled 'already sorted' tests")
+            continue
         if not dedup:
-            ob("C09.1", f"{Q}: working list `{core.src(st.init.value)}` keeps duplicates", core.VIOLATED, iwhere,
+            ob("C09.1", f"{Q}: working list {desc} keeps duplicates", core.VIOLATED, iwhere,
                "duplicates of a sibling separate the group in the scan (it is never merged) and are returned more than once")
         if not is_sorted:
-            ob("C09.1", f"{Q}: working list `{core.src(st.init.value)}` is not sorted", core.VIOLATED, iwhere,
+            ob("C09.1", f"{Q}: working list {desc} is not sorted", core.VIOLATED, iwhere,
                "the scan finds sibling groups only when they are adjacent in ascending order")
-        if st.sort_reverse:
-            ob("C09.1", f"{Q}: working list `{core.src(st.init.value)}` is sorted in descending order", core.VIOLATED, iwhere,
+        if rev:
+            ob("C09.1", f"{Q}: working list {desc} is sorted in descending order", core.VIOLATED, iwhere,
                "the scan expects cell + j*stride at positions i + j")
-        if dedup and is_sorted and not st.sort_reverse:
-            ob("C09.1", f"{Q}: working list `{core.src(st.init.value)}` is sorted and duplicate-free", core.DISCHARGED, iwhere,
+        if dedup and is_sorted and not rev:
+            ob("C09.1", f"{Q}: working list {desc} is sorted and duplicate-free", core.DISCHARGED, iwhere,
                "sorted(...) is applied after the set(...) and is the last reordering before the scan")
+            order_keys.append((kf, "" if guard is None else f"when {guard}", node))
     # statements before the loop: early returns
     body = [s for s in st.fn.body if not (isinstance(s, ast.Expr) and isinstance(s.value, ast.Constant))]
     for s in body[:body.index(st.outer)]:
@@ -173,6 +187,8 @@ def analyse(ctx, want_prefix: str):
             good = len(p.appended) == 1 and p.appended[0] == Lin(consts.WORLD) and isinstance(p.advance, Lin) and p.advance == Lin(1) and p.signal in (None, ("continue",))
             ob("C08.5", f"{Q}: a world-cell entry is copied through", core.DISCHARGED if good else core.VIOLATED, core.loc(COMPACT, st.inner),
                f"appended {p.appended}, index advance {p.advance}")
+        carried = carried_variables(st)
+        ctx.analysed["loop_carried_variables"] = carried
         for r in range(0, MAX + 1):
             if su.ids.get(r) is None:
                 ctx.notes.append(f"resolution {r}: no id form (C05), scan body not analysed for it")
@@ -183,8 +199,41 @@ def analyse(ctx, want_prefix: str):
                    "children of the generic parent are not a single arithmetic progression")
                 continue
             sibs[r] = sib
-            paths = run_body(interp, st, sib.cell, r)
-            merge_seen += check_paths(ob, st, sib, paths, r)
+        if not carried:
+            for r, sib in sorted(sibs.items()):
+                paths = run_body(interp, st, sib.cell, r)
+                merge_seen += check_paths(ob, st, sib, paths, r)
+        else:
+            # variables whose value survives from one iteration to the next: explore the reachable combinations of their values
+            # (they are functions of the resolutions of the cells scanned so far), then check every (state, resolution) pair
+            init = initial_carried(interp, st, carried)
+            start = tuple(freeze(init[k]) for k in carried)
+            states = {start: (init, "at the start of a pass")}
+            work = [start]
+            while work and len(states) < 400:
+                key = work.pop()
+                vals, how = states[key]
+                for r, sib in sorted(sibs.items()):
+                    for p in run_body(interp, st, sib.cell, r, dict(vals)):
+                        nxt = {k: p.carried.get(k) for k in carried}
+                        nk = tuple(freeze(nxt[k]) for k in carried)
+                        if nk not in states:
+                            states[nk] = (nxt, f"after a resolution-{r} cell ({how})" if how.count("after") < 2 else f"after a resolution-{r} cell (...)")
+                            work.append(nk)
+            ctx.analysed["loop_carried_states"] = len(states)
+            if any(k2[0] == "?" for key in states for k2 in key):
+                ob(want_prefix + ".0", f"{Q}: loop-carried variables {carried} take values that depend on the cells", core.UNDECIDED, core.loc(COMPACT, st.inner),
+                   "the scan body keeps state between iterations that the analysis cannot enumerate")
+            for key, (vals, how) in states.items():
+                if any(k2[0] == "?" for k2 in key):
+                    continue
+                for r, sib in sorted(sibs.items()):
+                    paths = run_body(interp, st, sib.cell, r, dict(vals))
+                    label = ", ".join(f"{k}={v[1]}" for k, v in zip(carried, key))
+
+                    def ob2(rule, construct, state, where, detail, _l=label, _h=how, **kw):
+                        ob(rule, construct + f" [{_l}; {_h}]", state, where, detail, **kw)
+                    merge_seen += check_paths(ob2, st, sib, paths, r)
     except (Budget, _Unmodelled) as e:
         ob(want_prefix + ".0", f"{Q}: interpretation of the scan body stopped", core.UNDECIDED, core.loc(COMPACT, st.inner), f"{type(e).__name__}: {e}")
     ctx.floor("resolutions whose scan body was analysed", len(sibs), 25)
@@ -192,21 +241,27 @@ def analyse(ctx, want_prefix: str):
     ctx.analysed["merge_paths"] = merge_seen
 
     # ---- order model (C09.4 / C09.5) ---------------------------------------------------------------------------
-    if want_prefix == "C09":
-        om = OrderModel(interp, st, su.ids, consts)
+    seen_keys = set()
+    for kf, kdesc, knode in (order_keys if want_prefix == "C09" else []):
+        if kf in seen_keys:
+            continue
+        seen_keys.add(kf)
+        om = OrderModel(interp, st, su.ids, consts, kf)
+        ksuffix = f" [{kdesc}]" if kdesc else ""
+        kwhere = core.loc(COMPACT, knode)
         failing_levels: List[int] = []
         try:
             for q in range(0, MAX):
                 if su.ids.get(q) is None or su.ids.get(q + 1) is None:
                     continue
                 stt, text = om.monotone_parent(q)
-                ob("C09.4", f"{Q}: parent map level {q + 1} -> {q} is monotone in sort order", stt, core.loc(COMPACT, st.init), text)
+                ob("C09.4", f"{Q}: parent map level {q + 1} -> {q} is monotone in sort order{ksuffix}", stt, kwhere, text)
                 if stt != core.DISCHARGED:
                     failing_levels.append(q)
                 sib = sibs.get(q + 1)
                 if sib is not None:
                     stt, text, point = om.within_span(sib)
-                    ob("C09.5", f"{Q}: a resolution-{q} cell sorts inside the span of its resolution-{q + 1} children", stt, core.loc(COMPACT, st.init), text)
+                    ob("C09.5", f"{Q}: a resolution-{q} cell sorts inside the span of its resolution-{q + 1} children{ksuffix}", stt, kwhere, text)
                     if stt != core.DISCHARGED:
                         failing_levels.append(q)
             levels = sorted({q + 1 for q in failing_levels} | {q + 2 for q in failing_levels})
@@ -214,21 +269,21 @@ def analyse(ctx, want_prefix: str):
             if levels:
                 wit = interleaving_witnesses(om, sibs, levels)
                 for rho, r2, vals, point in wit:
-                    ob("C09.4", f"{Q}: a complete sibling group of resolution {rho} is interleaved by an unrelated resolution-{r2} cell",
-                       core.VIOLATED, core.loc(COMPACT, st.init),
+                    ob("C09.4", f"{Q}: a complete sibling group of resolution {rho} is interleaved by an unrelated resolution-{r2} cell{ksuffix}",
+                       core.VIOLATED, kwhere,
                        f"sort keys: first sibling {vals[0]:#x} < foreign cell {vals[2]:#x} < last sibling {vals[1]:#x} at {point}; the foreign cell is "
                        f"neither ancestor nor descendant of the group, so the input is an antichain, the siblings are not adjacent after sorting "
                        f"and the group is never merged")
                 if not wit:
-                    ob("C09.4", f"{Q}: adjacency of sibling groups at resolutions {levels}", core.UNDECIDED, core.loc(COMPACT, st.init),
+                    ob("C09.4", f"{Q}: adjacency of sibling groups at resolutions {levels}{ksuffix}", core.UNDECIDED, kwhere,
                        "the order argument fails there and no concrete interleaving was found on the searched grid")
             else:
-                ob("C09.4", f"{Q}: sibling groups of an antichain are adjacent after sorting, at every resolution", core.DISCHARGED,
-                   core.loc(COMPACT, st.init),
+                ob("C09.4", f"{Q}: sibling groups of an antichain are adjacent after sorting, at every resolution{ksuffix}", core.DISCHARGED,
+                   kwhere,
                    "derived: monotone parent maps make the descendants of a cell an interval of each finer level; parents inside their children's span "
                    "keep coarser unrelated cells outside that interval")
         except (Budget, _Unmodelled) as e:
-            ob("C09.4", f"{Q}: order model", core.UNDECIDED, core.loc(COMPACT, st.init), f"{type(e).__name__}: {e}")
+            ob("C09.4", f"{Q}: order model", core.UNDECIDED, kwhere, f"{type(e).__name__}: {e}")
     return st, su, sibs
 
 
